@@ -62,10 +62,13 @@ theorem c11_no_escape_partial (s : St) (r : Req) (hI : Inv s) (e : PyExc) (h : (
   cases hc : handleCore s r with
   | mk s' o =>
     rw [hc] at this h
-    cases this <;> simp [headStrip] at h
-    all_goals first | (split at h <;> cases h) | skip
-    rename_i hu
-    cases h; exact hu
+    cases this with
+    | ok s'' resp' _ _ hst => simp only [headStrip] at h; split at h <;> cases h
+    | err c hcode => simp only [headStrip] at h; split at h <;> cases h
+    | notAcceptable _ => simp only [headStrip] at h; split at h <;> cases h
+    | notImplemented a hr => simp only [headStrip] at h; split at h <;> cases h
+    | crash _ _ _ _ hu => simp only [headStrip] at h; cases h; exact hu
+    | unmodelled => simp [headStrip] at h
 
 /-- every status is 2xx, one of the mapped 4xx codes, 406, or 501 on a route declared unimplemented; never another 5xx -/
 theorem c11_status_range (s : St) (r : Req) (hI : Inv s) (resp : Resp) (h : (handle s r).2 = .resp resp) :
@@ -104,7 +107,7 @@ theorem c11_4xx_pure (s : St) (r : Req) (hI : Inv s) (resp : Resp) (h : (handle 
     | ok s'' resp' _ _ hst =>
       simp only [headStrip] at h
       exfalso
-      split at h <;> (cases h; simp [okStatus] at hst; omega)
+      split at h <;> (cases h; simp [okStatus] at hst h4; omega)
     | err c hcode => rfl
     | notAcceptable _ => rfl
     | notImplemented a hr => rfl
@@ -156,8 +159,6 @@ theorem c11_inv_step (s : St) (r : Req) (hI : Inv s) : Inv (handle s r).1 ∧ (h
     | crash _ _ h1 h2 _ => exact ⟨h1, h2⟩
     | unmodelled => exact ⟨hI, rfl⟩
 
-theorem inv_init (fb : Bool) : Inv ⟨[], fb⟩ := ⟨by simp [AList.keys], by intro k o h; simp at h⟩
-
 /-- all of the above along EVERY request history from the empty store (dict- or file-backed): every state reached
     satisfies the invariant, and every output is a response in the allowed status set or an `update_from` crash -/
 theorem c11_history (fb : Bool) (rs : List Req) :
@@ -198,9 +199,18 @@ def witnessPut : Req :=
 
 /-- `PUT /submodels/{s}` whose body turns the property `a` into a collection: `update_nss_from` takes the KeyError of the
     nested `update_from` for "not contained", re-adds `a`, and AASd-022 leaves the handler (and the WSGI callable) -/
-theorem c11_escape_witness :
+theorem c11_escape_witness (h : Gen.Routes.classChangeReplaces = false) :
     (putObj "put_submodel" "s" .sm witnessPut witnessStore).2 = .py (.aascv 22) := by
-  rfl
+  first
+    | rfl                                   -- the tree as pinned: the witness evaluates to the crash
+    | exact absurd h (by decide)            -- a tree with the repaired update_nss_from: the hypothesis is false
+
+/-- with the repaired `update_nss_from` (C12's fix) the same request is answered -/
+theorem c11_escape_witness_repaired (h : Gen.Routes.classChangeReplaces = true) :
+    ∃ resp, (putObj "put_submodel" "s" .sm witnessPut witnessStore).2 = .ok resp ∧ resp.status = 204 := by
+  first
+    | exact ⟨_, rfl, rfl⟩
+    | exact absurd h (by decide)
 
 /-! ### non-vacuity: the hypotheses are satisfiable and the handlers do answer -/
 
